@@ -355,3 +355,18 @@ def _fp_match(pattern: str, fp: str) -> bool:
 def die_machinery(prop: str, tier: str, msg: str) -> int:
     sys.stdout.write("MACHINERY-FAILURE property=%s tier=%s\n%s\n" % (prop, tier, msg))
     return 2
+
+
+def cov_save() -> None:
+    """Development aid (tools/coverage_run.sh): a forked child that leaves through os._exit saves its
+    coverage data first.  No-op unless the run was started under coverage."""
+    if not os.environ.get("COVERAGE_PROCESS_START"):
+        return
+    try:
+        import coverage
+        cov = coverage.Coverage.current()
+        if cov is not None:
+            cov.stop()
+            cov.save()
+    except Exception:
+        pass
